@@ -263,6 +263,63 @@ theorem loss_is_permanent (sched : List Actor) (s s1 : St) (o o1 : Op) (h0 : s.l
     (hD : DoomedSt s o) (hr : run sched s o = (s1, .inl o1)) : s1.left = 0 :=
   (run_keeps doomed_stepInv sched s s1 o o1 hD hr).2.2.1 h0
 
+/-! ## the loss is permanent across failed re-opens -/
+
+/-- OBLIGATION on the regenerated fact: the `readLoopExited.Store(…)` sites of package channel never
+clear the flag before a transport open has succeeded and the new read loop is started (today there
+is no clearing site at all: the only writer is the deferred `Store(true)` of the read loop). -/
+theorem flag_is_not_cleared_early : policyOf Gen.C06ReadLoop.flagStores ≠ .early := by decide
+
+/-- `loss_is_permanent_across_failed_reopen`. After a loss (`flag` set), whatever the caller does on
+the same `Channel` — `Open()` that fails in the transport, `Close()`, further losses, operations, in
+any order and number — every operation is refused with an error until an `Open()` whose transport
+open SUCCEEDS; for every clearing policy except "early". -/
+theorem loss_is_permanent_across_failed_reopen (p : ClearAt) (hp : p ≠ .early) (c : Conn)
+    (hf : c.flag = true) (evs : List SEv) (hno : SEv.openOk ∉ evs) :
+    ∀ b ∈ (srun p c evs).2, b = true := by
+  induction evs generalizing c with
+  | nil => simp [srun]
+  | cons e es ih =>
+    have hno' : SEv.openOk ∉ es := fun h => hno (List.mem_cons_of_mem _ h)
+    cases e with
+    | lossEof =>
+      simp only [srun, sstep]
+      apply ih _ _ hno'
+      split <;> simp [hf]
+    | openFail =>
+      simp only [srun, sstep]
+      exact ih _ (by simp [hp, hf]) hno'
+    | openOk => exact absurd (List.mem_cons_self) hno
+    | close =>
+      simp only [srun, sstep]
+      apply ih _ _ hno'
+      split <;> simp [hf]
+    | op =>
+      simp only [srun, sstep]
+      intro b hb
+      rcases List.mem_cons.mp hb with h | h
+      · rw [h, hf]
+      · exact ih c hf hno' b h
+
+/-- … in particular for the policy the source has now -/
+theorem loss_is_permanent_in_the_source (c : Conn) (hf : c.flag = true) (evs : List SEv)
+    (hno : SEv.openOk ∉ evs) :
+    ∀ b ∈ (srun (policyOf Gen.C06ReadLoop.flagStores) c evs).2, b = true :=
+  loss_is_permanent_across_failed_reopen _ flag_is_not_cleared_early c hf evs hno
+
+/-- NEGATIVE WITNESS: with the flag cleared at the start of `Open`, "loss, failed re-open, operation"
+lets the operation through (to the stale queue / to a wait for its full timeout): no read loop is
+running and nothing will ever set the flag again. -/
+theorem early_clear_breaks_permanence :
+    srun .early { flag := false, loop := true } [.lossEof, .op, .openFail, .op] =
+      ({ flag := false, loop := false }, [true, false]) ∧
+    policyOf [("Open", "false", "before-transport-open"), ("read", "true", "deferred")] = .early := by
+  decide
+
+/-- what "refused at once" means in the channel model: with the flag set (`rd = exited`) every
+operation that has to read errors, whatever the queue holds (`later_ops_error_any_queue`) -/
+example : policyOf Gen.C06ReadLoop.flagStores = .never := by decide
+
 /-! ## no_truncated_success -/
 
 /-- For every loss point, loss kind and interleaving: if the operation reports success at all, the
